@@ -1,12 +1,23 @@
 import CovfieModel.Model.Interp
 import CovfieModel.Model.Layout
+/-! Judge for C03 (`lincheck`): one verdict per lookup of `linear<[clamp<]strided<sizeN, array<T M>>[>], C N>`.
+
+  `F vprec M clamp s1..sN | cells`            sets the field (cells = bit patterns, row-major, M per cell) → `set <n>`
+  `L cprec c1..cN | r1..rM [| i1..i2^N]`      coordinate bits | implementation's result bits | flat indices it read
+     → `ok|BAD|skip v=<e|t|B per component> lat=<na|ok|bad> hull=<ok|bad> nb=<na|ok|okset|bad> br=<1|2|3|g><eq|ne> …`
+
+  All arithmetic is exact (`Rat`) on the decoded bit patterns; the interpolant is the model's `nlin`, the code-shaped sum
+  is the model's `lin1/lin2/lin3/linGeneric` (chosen by N, as `linear.hpp` does); the acceptance bound is that of
+  DESIGN §5 C03 with the underflow term scaled by max(1, Σ_n |v_n|) (subnormal weights).  -/
 open Covfie
-/-- state: current field (value precision, M, sizes, cells as bit patterns in row-major storage order) -/
+
 structure Fld where
   vprec : Nat := 32
   M : Nat := 1
+  clamp : Bool := false
   sizes : List Nat := []
-  cells : Array Nat := #[]
+  cells : Array Rat := #[]
+  finite : Bool := true
 
 def hexs (xs : List String) : Option (List Nat) := xs.mapM (fun s => (String.toNat? s))
 def splitBar (xs : List String) : List (List String) :=
@@ -16,51 +27,132 @@ def ufor (prec : Nat) : Rat := if prec = 32 then uF32 else uF64
 def tiny (prec : Nat) : Rat := if prec = 32 then pow2 (-149) else pow2 (-1074)
 def truncNat (q : Rat) : Nat := (q.num / q.den).toNat      -- q ≥ 0
 
+/-- ⌊log2 a⌋ for a > 0 -/
+def ilog2 (a : Rat) : Int :=
+  let e0 : Int := (Nat.log2 a.num.toNat : Int) - (Nat.log2 a.den : Int)
+  if a < pow2 e0 then e0 - 1 else if pow2 (e0 + 1) ≤ a then e0 + 1 else e0
+
+/-- nearest binary32 value, ties to even (what `static_cast<float>(double)` does below the overflow threshold) -/
+def roundF32 (q : Rat) : Rat :=
+  if q = 0 then 0 else
+  let a := rabs q
+  let e := ilog2 a
+  let ee := if e < -126 then -126 else e
+  let ulp := pow2 (ee - 23)
+  let r : Rat := ((nnRound (a / ulp) : Int) : Rat) * ulp
+  if q < 0 then -r else r
+
+/-- the order in which the branch in use numbers its neighbours: specialised branches have axis 0 as the most
+    significant bit of `n`, the generic branch has axis `m` as bit `m` -/
+def branchCorners (N : Nat) : List (List Bool) :=
+  (List.range (2 ^ N)).map fun n => if N ≤ 3 then (bitsOf N n).reverse else bitsOf N n
+
+def neighbourIdx (f : Fld) (is : List Nat) (bs : List Bool) : Nat :=
+  stridedIdx f.sizes ((is.zip (bs.zip f.sizes)).map (fun (i, b, s) =>
+    let c := if b then i + 1 else i
+    if f.clamp then min c (s - 1) else c))
+
+def sortNat (l : List Nat) : List Nat := (l.toArray.qsort (· < ·)).toList
+
 /-- verdict for one lookup -/
-def linCheck (f : Fld) (cprec : Nat) (coord impl : List Nat) : String := Id.run do
+def linCheck (f : Fld) (cprec : Nat) (coord impl : List Nat) (idx : Option (List Nat)) : String := Id.run do
   let N := f.sizes.length
+  if coord.length ≠ N ∨ impl.length ≠ f.M then return "bad-op"
+  if !f.finite then return "skip nonfinite-cell"
   let cs := coord.map (dec cprec)
   let mut qs : List Rat := []
   for c in cs do
     match c with
-    | .fin q => qs := qs ++ [q]
+    | .fin q => if q < 0 then return "skip negative-coord" else qs := qs ++ [q]
     | _ => return "skip nonfinite-coord"
   let is := qs.map truncNat
   let fr := (qs.zip is).map (fun (q, i) => q - (i : Rat))
+  if !f.clamp ∧ (is.zip f.sizes).any (fun (i, s) => i + 1 ≥ s) then return "skip out-of-domain"
+  let lattice := fr.all (· == 0)
   -- working precision = coordinate precision; result stored at value precision
   let k : Nat := 2 * N + 2^N + 3
   let u := max (ufor cprec) (ufor f.vprec)
   let gamma : Rat := (k : Rat) * u / (1 - (k : Rat) * u)
-  let mut out := ""
+  let cornersL := branchCorners N
+  let mut vs := ""
+  let mut lat := if lattice then "ok" else "na"
+  let mut hull := "ok"
+  let mut br := "eq"
+  let mut bad := false
+  let mut detail := ""
   for q in List.range f.M do
-    let v : List Bool → Rat := fun bs =>
-      let idx := stridedIdx f.sizes ((is.zip bs).map (fun (i, b) => if b then i + 1 else i))
-      match dec f.vprec (f.cells.getD (idx * f.M + q) 0) with
-      | .fin r => r
-      | _ => 0
+    let v : List Bool → Rat := fun bs => f.cells.getD (neighbourIdx f is bs * f.M + q) 0
     let exact := nlin fr v
-    let bound := gamma * nlinAbs fr v + (k : Rat) * max (tiny cprec) (tiny f.vprec)
+    let code := match fr with
+      | [a] => lin1 a v
+      | [a, b] => lin2 a b v
+      | [a, b, c] => lin3 a b c v
+      | _ => linGeneric fr v
+    if code ≠ exact then
+      br := "ne"; bad := true
+    -- underflow: a weight product that lands in the subnormal range carries an ABSOLUTE error ≤ tiny/2, which the
+    -- multiplication by the stored value then scales by |v_n|; hence the factor max(1, Σ_n |v_n|) on the tiny term
+    let sumAbs := (cornersL.map fun bs => rabs (v bs)).foldl (· + ·) 0
+    let bound := gamma * nlinAbs fr v + (k : Rat) * max (tiny cprec) (tiny f.vprec) * max 1 sumAbs
     match dec f.vprec (impl.getD q 0) with
     | .fin r =>
       let d := rabs (r - exact)
-      if d = 0 then out := out ++ " exact"
-      else if d ≤ bound then out := out ++ " tol"
-      else return s!"BAD comp={q} exact={exact} impl={r} bound={bound}"
-    | _ => return s!"BAD comp={q} impl-nonfinite"
-  return "ok" ++ out
+      if d = 0 then vs := vs ++ "e"
+      else if d ≤ bound then vs := vs ++ "t"
+      else
+        vs := vs ++ "B"; bad := true
+        if detail == "" then detail := s!" comp={q} exact={exact} impl={r} bound={bound}"
+      -- hull
+      let vals := cornersL.map v
+      let lo := vals.foldl min (vals.headD 0)
+      let hi := vals.foldl max (vals.headD 0)
+      if r < lo - bound ∨ hi + bound < r then
+        hull := "bad"; bad := true
+        if detail == "" then detail := s!" comp={q} impl={r} hull=[{lo},{hi}] bound={bound}"
+      -- lattice point: the stored value, after conversion to the coordinate precision when that is the narrower one
+      if lattice then
+        let v0 := v (is.map fun _ => false)
+        let want := if cprec < f.vprec then roundF32 v0 else v0
+        if r ≠ want then
+          lat := "bad"; bad := true
+          if detail == "" then detail := s!" comp={q} impl={r} stored={v0} expected={want}"
+    | _ =>
+      vs := vs ++ "B"; bad := true
+      if detail == "" then detail := s!" comp={q} impl-nonfinite"
+  -- neighbour set
+  let mut nb := "na"
+  match idx with
+  | some got =>
+    let want := cornersL.map (neighbourIdx f is)
+    if got == want then nb := "ok"
+    else if sortNat got == sortNat want then nb := "okset"
+    else
+      nb := "bad"; bad := true
+      if detail == "" then detail := s!" read={got} model={want}"
+  | none => pure ()
+  let b := if N = 1 then "1" else if N = 2 then "2" else if N = 3 then "3" else "g"
+  return (if bad then "BAD" else "ok") ++ s!" v={vs} lat={lat} hull={hull} nb={nb} br={b}{br}" ++ detail
 
-partial def loop (h : IO.FS.Stream) (f : Fld) : IO Unit := do
+partial def loop (h : IO.FS.Stream) (out : IO.FS.Stream) (f : Fld) : IO Unit := do
   let line ← h.getLine
   if line.isEmpty then return ()
   let toks := (line.trimAscii.toString.splitOn " ").filter (· ≠ "")
   match toks with
-  | "F" :: vp :: m :: rest =>
-    match vp.toNat?, m.toNat?, (splitBar rest).map hexs with
-    | some vp, some m, [some sz, some cells] => loop h { vprec := vp, M := m, sizes := sz, cells := cells.toArray }
-    | _, _, _ => IO.println "bad-op"; loop h f
+  | "F" :: vp :: m :: cl :: rest =>
+    match vp.toNat?, m.toNat?, cl.toNat?, (splitBar rest).map hexs with
+    | some vp, some m, some cl, [some sz, some cells] =>
+      let decd := cells.map (dec vp)
+      let fin := decd.all (fun d => match d with | .fin _ => true | _ => false)
+      let rs := decd.map (fun d => match d with | .fin r => r | _ => 0)
+      out.putStrLn s!"set {cells.length / (if m = 0 then 1 else m)}"
+      loop h out { vprec := vp, M := m, clamp := cl != 0, sizes := sz, cells := rs.toArray, finite := fin }
+    | _, _, _, _ => out.putStrLn "bad-op"; loop h out f
   | "L" :: cp :: rest =>
     match cp.toNat?, (splitBar rest).map hexs with
-    | some cp, [some c, some impl] => IO.println (linCheck f cp c impl); loop h f
-    | _, _ => IO.println "bad-op"; loop h f
-  | _ => IO.println "bad-op"; loop h f
-def main : IO Unit := do loop (← IO.getStdin) {}
+    | some cp, [some c, some impl] => out.putStrLn (linCheck f cp c impl none); loop h out f
+    | some cp, [some c, some impl, some idx] => out.putStrLn (linCheck f cp c impl (some idx)); loop h out f
+    | _, _ => out.putStrLn "bad-op"; loop h out f
+  | _ => out.putStrLn "bad-op"; loop h out f
+def main : IO Unit := do
+  let out ← IO.getStdout
+  loop (← IO.getStdin) out {}
